@@ -16,7 +16,7 @@ from .props import HDR, standard
 
 PKG = "sdk/go/keepclient"
 FILES = ["C11/zz_verif_c11_test.go"]
-IMPORTS = HDR.format(imports="model.C11_model model.C11_run")
+IMPORTS = HDR.format(imports="model.KC_discover model.C11_model model.C11_run")
 
 
 def _parse_sched(out):
